@@ -205,7 +205,10 @@ namespace {
                 }
             }));
             if (sp && yields > 0 && waker_os)
-                g_wakers.emplace_back([sp, yields, waker_delay] {
+            {
+                // (submit_op runs on several simulated threads: the thread is created first, the shared vector
+                // is only touched inside an atomic section and never reallocates)
+                std::thread wt([sp, yields, waker_delay] {
                     for (int y = 1; y <= yields; y++)
                     {
                         while (sp->about_to_block < y) std::this_thread::yield();
@@ -213,6 +216,9 @@ namespace {
                         sp->sem.release();
                     }
                 });
+                AtomicSection a;
+                g_wakers.push_back(std::move(wt));
+            }
             break;
         }
         case K_STD_THREAD:
@@ -272,6 +278,7 @@ namespace {
         begin_sim(ctx, sc);
         focus_select(ctx, c10_focus, 3);
         g_dump_hook = +[]() -> std::string { return pk::dump() + sfmt(" | records %d of %d", g_records, g_expected_records); };
+        g_wakers.reserve(256);
         pk::start_with_pools(ctx, spec);
         {
             Pool d;
